@@ -9,6 +9,7 @@ package client
 //@   ensures[C02.not_done_without_trailer C13.wellformed] rpc.Trailer == nil ==> !result.0 && result.1 == nil
 //@   ensures[C02.done_with_trailer] rpc.Trailer != nil ==> result.0 && result.1 != nil
 //@   ensures[C02.eof_iff_ok C03.ok_is_eof] rpc.Trailer != nil && rpc.Reset_ == nil && (rpc.Status == nil || rpc.Status.Code == 0) ==> result.1 == io.EOF
+//@   ensures[C02.eof_only_if_ok C03.eof_only_if_ok] rpc.Trailer != nil && result.1 == io.EOF ==> (rpc.Status == nil || rpc.Status.Code == 0) && rpc.Reset_ == nil
 //@   ensures[C03.error_status] rpc.Trailer != nil && rpc.Status != nil && rpc.Status.Code != 0 ==>
 //@     | result.1 != io.EOF && isStatus(result.1) && stCode(result.1) == rpc.Status.Code && stMsg(result.1) == rpc.Status.Message && stDetails(result.1) == rpc.Status.Details
 //@   ensures[C03.reset_not_eof C02.reset_not_eof] rpc.Trailer != nil && rpc.Reset_ != nil ==> result.1 != nil && result.1 != io.EOF
@@ -36,7 +37,8 @@ package client
 //@ func client.(*RpcMultiplexer).registerHandler
 //@   requires[C05.registry C01.registry] c != nil && isclass(c, "client.handlers") && tag(c) == id && !closed(c)
 //@   owns c
-//@   ensures[C05.registered] id in rm.handlers && rm.handlers[id] == c
+//@   ensures[C05.registered C09.refused_after_failure] result == nil ==> id in rm.handlers && rm.handlers[id] == c
+//@   ensures[C09.refused_after_failure C14.refused_means_unregistered] result != nil ==> len(rm.handlers) == 0 && rm.rErr != nil
 
 //@ func client.(*RpcMultiplexer).unregisterHandler
 //@   nopanic[C13.nopanic C14.nopanic]
@@ -78,3 +80,28 @@ package client
 //@   ensures[C03.error_status] bound("resp") && resp != nil && resp.Status != nil && resp.Status.Code != 0 ==>
 //@     | result.0 == nil && isStatus(result.1) && stCode(result.1) == resp.Status.Code && stMsg(result.1) == resp.Status.Message && stDetails(result.1) == resp.Status.Details
 //@   ensures[C09.closed_channel_is_error] bound("ok") && !ok ==> result.1 != nil
+
+//@ func client.(*RpcMultiplexer).NewStreamReadWriter
+//@   nopanic[C13.nopanic C14.nopanic]
+//@   makechan 0 tag streamId class client.handlers
+//@   ensures[C09.fail_fast C14.nothing_left_on_error] result.3 != nil ==> result.1 == nil && result.2 == nil && (bound("streamId") ==> !(streamId in rm.handlers))
+//@   ensures[C05.fresh_registration] result.3 == nil ==> result.1 != nil && result.2 != nil && result.0 in rm.handlers && tag(rm.handlers[result.0]) == result.0
+
+// teardown closure: unregisters exactly this stream's id
+//@ func client.(*RpcMultiplexer).NewStreamReadWriter$1
+//@   nopanic[C14.nopanic]
+//@   ensures[C14.teardown_unregisters] !(streamId in rm.handlers)
+
+// read closure: only this stream's channel, closed channel => error
+//@ func client.(*RpcMultiplexer).NewStreamReadWriter$2
+//@   nopanic[C13.nopanic]
+//@   requires ctx != nil
+//@   captures[C05.own_channel] isclass(respChan, "client.handlers")
+//@   ensures[C09.closed_channel_is_error C13.wellformed] (result.1 == nil) != (result.0 == nil)
+//@   ensures[C05.only_own_envelopes] result.1 == nil ==> result.0.Id == tag(respChan)
+
+// write closure: forwards the envelope unchanged
+//@ func client.(*RpcMultiplexer).NewStreamReadWriter$3
+//@   nopanic[C13.nopanic]
+//@   atcall[C06.stream_write_unchanged C02.write_unchanged] (types.RpcReadWriter).Write : arg2 == rpc && arg1 == ctx
+//@   ensures[C02.one_write C06.one_write] ncalls("(types.RpcReadWriter).Write") == old(ncalls("(types.RpcReadWriter).Write")) + 1
